@@ -9,6 +9,7 @@ import (
 	"path/filepath"
 	"runtime/debug"
 	"strconv"
+	"strings"
 
 	"evcheck/check"
 )
@@ -20,7 +21,11 @@ func main() {
 	work := flag.String("work", "", "scratch directory for the harness module (default <verif>/.work/<prop>-<tier>)")
 	out := flag.String("out", "", "directory receiving evidence/ (default: the verification directory)")
 	noctl := flag.Bool("no-controls", false, "do not load the control packages")
+	props := flag.String("props", "", "comma-separated list of properties decided in ONE process over one loaded program (validation aid: prints 'EXIT <id> <code>' per property; the registered checks run one property per process)")
 	flag.Parse()
+	if *props != "" {
+		os.Exit(runMany(strings.Split(*props, ","), *repo, *verif, *tier, *work, *out, *noctl))
+	}
 	if flag.NArg() < 1 {
 		fmt.Fprintln(os.Stderr, "usage: evcheck [flags] <property-id>")
 		os.Exit(2)
@@ -92,4 +97,64 @@ func envOr(k, d string) string {
 		return v
 	}
 	return d
+}
+
+// runMany decides several properties over one loaded program (the loading and SSA
+// construction dominate the cost of a run). Each property gets its own report and
+// rule context; the exit status is 1 if any of them failed.
+func runMany(ids []string, repo, verif, tier, work, out string, noctl bool) int {
+	if out == "" {
+		out = verif
+	}
+	if tier != "quick" && tier != "thorough" {
+		tier = "quick"
+	}
+	seed, _ := strconv.Atoi(os.Getenv("VERIF_SEED"))
+	known, err := check.LoadKnown(filepath.Join(verif, "known_findings.json"))
+	if err != nil {
+		fmt.Println("cannot read known_findings.json:", err)
+		return 2
+	}
+	wd := work
+	if wd == "" {
+		wd = filepath.Join(out, ".work", "many-"+tier+"-"+strconv.Itoa(os.Getpid()))
+	}
+	defer os.RemoveAll(wd)
+	ctl := filepath.Join(verif, "checker", "testdata", "controls")
+	if noctl {
+		ctl = ""
+	}
+	p, err := check.Load(repo, wd, ctl)
+	worst := 0
+	for _, id := range ids {
+		run, ok := check.Runners[id]
+		if !ok {
+			fmt.Fprintf(os.Stderr, "unknown property %s\n", id)
+			return 2
+		}
+		r := check.NewReport(id, tier, seed)
+		r.Assumptions = check.CommonAssumptions
+		code := func() (code int) {
+			defer func() {
+				if e := recover(); e != nil {
+					fmt.Printf("checker panic: %v\n%s\n", e, debug.Stack())
+					r.Und(id+".internal", "panic", "", fmt.Sprint(e))
+					code = r.Finish(out, known)
+				}
+			}()
+			if err != nil {
+				fmt.Println("load failed:", err)
+				r.Und(id+".load", "program", "", err.Error())
+				return r.Finish(out, known)
+			}
+			r.Packages = p.NPkgs
+			run(&check.Ctx{P: p, R: r, Tier: tier})
+			return r.Finish(out, known)
+		}()
+		fmt.Printf("EXIT %s %d\n", id, code)
+		if code > worst {
+			worst = code
+		}
+	}
+	return worst
 }
